@@ -203,15 +203,24 @@ fn content(t: &mut Tape, obs: &mut Obs) -> R {
     // direction: 50 cells per generated message, so that a content-dependent row of any single cell is met by every message of its kind
     let m0 = minimal_msg(kind);
     let (a, b) = (mk::msg(&m), mk::msg(&m0));
+    // the same kind in the payload variants no parser produces (the state machine takes any constructed TlsMessage)
+    let mut variants: Vec<TlsMessage> = vec![a];
+    if let MMsg::Hs(MHs::ClientKeyExchange(body)) = &m {
+        variants.push(TlsMessage::Handshake(TlsMessageHandshake::ClientKeyExchange(TlsClientKeyExchangeContents::Dh(body))));
+        variants.push(TlsMessage::Handshake(TlsMessageHandshake::ClientKeyExchange(TlsClientKeyExchangeContents::Ecdh(ECPoint { point: body }))));
+        obs.class("client-key-exchange-variants");
+    }
+    for a in &variants {
     for st in 0..25 {
         for dir in [true, false] {
             obs.evals_add(1);
-            let ra = res_to_model(guard("tls_state_transition", || tls_state_transition(STATES[st], &a, dir))?)?;
+            let ra = res_to_model(guard("tls_state_transition", || tls_state_transition(STATES[st], a, dir))?)?;
             let rb = res_to_model(guard("tls_state_transition", || tls_state_transition(STATES[st], &b, dir))?)?;
-            ensure!(ra == rb, format!("C08:content-dependence:state={}:kind={:?}", STATE_NAMES[st], kind), "outcome depends on message content: {} for {} but {} for a minimal message of the same kind (state {}, to_server={})", show(ra), trunc(&format!("{:?}", m)), show(rb), STATE_NAMES[st], dir);
+            ensure!(ra == rb, format!("C08:content-dependence:state={}:kind={:?}", STATE_NAMES[st], kind), "outcome depends on message content: {} for {} but {} for a minimal message of the same kind (state {}, to_server={})", show(ra), trunc(&format!("{:?}", a)), show(rb), STATE_NAMES[st], dir);
             let want = states::expected(st, kind, dir);
-            ensure!(ra == want, format!("C08:content:state={}:kind={:?}:to_server={}", STATE_NAMES[st], kind, dir), "tls_state_transition({}, {}, to_server={}) = {}, the documented flows give {}", STATE_NAMES[st], trunc(&format!("{:?}", m)), dir, show(ra), show(want));
+            ensure!(ra == want, format!("C08:content:state={}:kind={:?}:to_server={}", STATE_NAMES[st], kind, dir), "tls_state_transition({}, {}, to_server={}) = {}, the documented flows give {}", STATE_NAMES[st], trunc(&format!("{:?}", a)), dir, show(ra), show(want));
         }
+    }
     }
     check_cell(state, &m, to_server, "content")
 }
